@@ -60,6 +60,8 @@ def unit_probe(rng, acc):
             raise core.Violation(PROP, 'static-universe', 'StaticUniverse returned %s for %s' % (st.get_assets(t), assets), {})
     k = rng.randint(1, 12)
     w = {'EQ:W%d' % i: rng.choice([0.0, 1.0, -0.5, rng.uniform(-2, 2)]) for i in range(k)}
+    if rng.random() < 0.25:
+        w = {a: rng.choice([1, 1, -1, 0, 2, True]) for a in w}          # signal=1 style: every value an int/bool
     out = FixedWeightPortfolioOptimiser()(base, initial_weights=dict(w))
     if out != w:
         raise core.Violation(PROP, 'fixed-weight-optimiser', 'fixed-weight optimiser turned %s into %s' % (w, out), {})
